@@ -373,7 +373,9 @@ def replay_logic(triple, present, w):
 # (4) defaults, pass-through to the tabulation object, and the grid it implies
 
 def grid_case(kind, defaults):
-  res = new_result("factory/grid %s %s" % (kind, "defaults" if defaults else "given values"))
+  # defaults == "after": the defaults are asked for after the same (module level) factory served a file that gave values
+  after = defaults == "after"
+  res = new_result("factory/grid %s %s" % (kind, "defaults after a file with given values" if after else ("defaults" if defaults else "given values")))
   from atsim.potentials.config import _tabulation_factories as tf
   from atsim.potentials import pair_tabulation as pt, eam_tabulation as et
   NR = 7
@@ -392,6 +394,15 @@ def grid_case(kind, defaults):
     class CP(object):
       tabulation = t
     fac = tf.TABULATION_FACTORIES["LAMMPS" if kind == "pair" else "setfl"]
+    if after:
+      t0 = Tab()
+      t0.cutoff, t0.nr, t0.cutoff_rho, t0.nrho = sym("cutoff"), NR, sym("cutoff_rho"), NR + 2
+      assume(t0.cutoff > 0)
+      assume(t0.cutoff_rho > 0)
+
+      class CP0(object):
+        tabulation = t0
+      fac.extract_cutoffs(CP0())
     c = fac.extract_cutoffs(CP())
     if kind == "pair":
       tab = pt.LAMMPS_PairTabulation([], c.cutoff, c.nr)
@@ -425,10 +436,13 @@ def grid_case(kind, defaults):
       want = (10.0, 1001) if kind == "pair" else (10.0, 1001, 100.0, 1001)
       if wrong:
         want = (10.0, 1000) + want[2:]
-      if tuple(v["c"]) != want:
+      got_c = tuple(v["c"])
+      # (a default that is a symbolic value can only have come from the file read before)
+      if len(got_c) != len(want) or any(type(x) not in (int, float) or x != y for x, y in zip(got_c, want)):
         if wrong:
           return [VC("neg", z3.BoolVal(False))]
-        raise Structural("defaults", "defaults are %r, documented %r" % (tuple(v["c"]), want))
+        raise Structural("defaults-after-other-file" if after else "defaults", "defaults are %s, documented %r" % (
+          [x if type(x) in (int, float) else "<value of the earlier file>" for x in got_c], want))
       if v["dr"] != 10.0 / 1000 or (kind != "pair" and v["drho"] != 100.0 / 1000):
         raise Structural("default-step", "default steps are %r %r" % (v["dr"], v.get("drho")))
       return [VC("defaults", z3.BoolVal(True))]
@@ -489,6 +503,14 @@ def grid_case(kind, defaults):
       if abs(tab.dr - c0 / (NR - 1)) > 1e-15 * c0:
         bad.append("dr=%r" % tab.dr)
       return (bool(bad), "; ".join(bad) or "grids agree", dict(kind="grid", cutoff=c0, cutoff_rho=c1))
+    if after:
+      r_ = common.in_fresh_process("checks.c11", "replay_defaults_after", kind)
+      return (bool(r_[0]), r_[1], r_[2])
+    if after:
+      first = ("[Tabulation]\ntarget : LAMMPS\ncutoff : 6.5\nnr : 7\n\n[Pair]\nA-B : as.buck 1000.0 0.3 10.0\n" if kind == "pair" else
+               "[Tabulation]\ntarget : setfl\ncutoff : 6.5\nnr : 7\ncutoff_rho : 42.0\nnrho : 9\n\n[EAM-Embed]\nA : as.polynomial 0 1\n[EAM-Density]\nA : as.polynomial 0 1\n"
+               "[Pair]\nA-A : as.buck 1000.0 0.3 10.0\n[Species]\nA.atomic_number : 1\nA.atomic_mass : 1.0\nA.lattice_constant : 1.0\nA.lattice_type : fcc\n")
+      Configuration().read(io.StringIO(first))
     if kind == "pair":
       text = "[Tabulation]\ntarget : LAMMPS\n\n[Pair]\nA-B : as.buck 1000.0 0.3 10.0\n"
       tab = Configuration().read(io.StringIO(text))
@@ -503,6 +525,25 @@ def grid_case(kind, defaults):
   return res
 
 
+def replay_defaults_after(kind):
+  """fresh process: a file that gives its grid, then one that leaves it to the defaults, through the public API"""
+  from atsim.potentials.config import Configuration
+  eam_body = ("\n[EAM-Embed]\nA : as.polynomial 0 1\n[EAM-Density]\nA : as.polynomial 0 1\n[Pair]\nA-A : as.buck 1000.0 0.3 10.0\n"
+              "[Species]\nA.atomic_number : 1\nA.atomic_mass : 1.0\nA.lattice_constant : 1.0\nA.lattice_type : fcc\n")
+  if kind == "pair":
+    first = "[Tabulation]\ntarget : LAMMPS\ncutoff : 6.5\nnr : 7\n\n[Pair]\nA-B : as.buck 1000.0 0.3 10.0\n"
+    text = "[Tabulation]\ntarget : LAMMPS\n\n[Pair]\nA-B : as.buck 1000.0 0.3 10.0\n"
+  else:
+    first = "[Tabulation]\ntarget : setfl\ncutoff : 6.5\nnr : 7\ncutoff_rho : 42.0\nnrho : 9\n" + eam_body
+    text = "[Tabulation]\ntarget : setfl\n" + eam_body
+  Configuration().read(io.StringIO(first))
+  tab = Configuration().read(io.StringIO(text))
+  got = (tab.cutoff, tab.nr) if kind == "pair" else (tab.cutoff, tab.nr, tab.cutoff_rho, tab.nrho)
+  want = (10.0, 1001) if kind == "pair" else (10.0, 1001, 100.0, 1001)
+  return [got != want, "a file giving cutoff 6.5 / nr 7 was tabulated first; the next file gives no grid and gets %r (documented defaults %r)" % (got, want),
+          dict(kind="defaults_after", grid_kind=kind, first=first, model=text)]
+
+
 def cases(tier, seed=0):
   q = tier == "quick"
   cs = []
@@ -512,7 +553,7 @@ def cases(tier, seed=0):
     for present in [(a, b, c) for a in (False, True) for b in (False, True) for c in (False, True)]:
       cs.append(Case("logic %s %s" % (tr, present), logic_case, triple=tr, present=present))
   for kind in ("pair", "eam"):
-    for d in (True, False):
+    for d in (True, False, "after"):
       cs.append(Case("grid %s %s" % (kind, d), grid_case, kind=kind, defaults=d))
   return cs
 
